@@ -540,6 +540,10 @@ def _equiv(job, ctx):
             fp = "C18|equiv|%s|%s|%s|" % (job["variant"], fmt, job["startdir"])
             case = _case(job, [mi, ci])
             ctx.transitions += 1
+            # a section that no document mentions holds a value set by the application: it is not part of the merged tree,
+            # so the load leaves it alone - on both sides
+            cfg.first.q = 77
+            ref.first.q = 77
             main_before = copy.deepcopy(main)
             try:
                 if job.get("opts"):
